@@ -798,6 +798,33 @@ func (e *Engine) builtin(st *State, fr *Frame, bi *ssa.Builtin, args []Val, cc *
 		return IntV{tb.Ite(lt, b, a)}
 	case "ssa:wrapnilchk":
 		return args[0]
+	case "SliceData":
+		s := args[0].(SliceV)
+		if s.Obj == 0 {
+			return PtrV{}
+		}
+		if e.sliceIsBytes(st, s) {
+			return PtrV{Obj: s.Obj, Idx: s.Off}
+		}
+		return PtrV{Obj: s.Obj, Path: copyPath(s.Base, int(e.concretize(st, s.Off)))}
+	case "StringData":
+		s := args[0].(StrV)
+		bs := e.bytesFromStr(st, s, "StringData")
+		return PtrV{Obj: bs.Obj, Idx: tb.BV(0, 64)}
+	case "String":
+		p := args[0].(PtrV)
+		n := tb.Resize(args[1].(IntV).T, 64, true)
+		if p.Obj == 0 {
+			return StrV{Conc: true}
+		}
+		return e.strFromBytes(st, SliceV{Obj: p.Obj, Off: p.Idx, Len: n, Cap: n})
+	case "Slice":
+		p := args[0].(PtrV)
+		n := tb.Resize(args[1].(IntV).T, 64, true)
+		if p.Obj == 0 {
+			return SliceV{Off: tb.BV(0, 64), Len: tb.BV(0, 64), Cap: tb.BV(0, 64)}
+		}
+		return SliceV{Obj: p.Obj, Off: p.Idx, Len: n, Cap: n}
 	}
 	panic(engineErr("builtin %s on %T", bi.Name(), args[0]))
 }
